@@ -296,7 +296,8 @@ def run(chk):
     if not ok:
         chk.violation("proof", "proof obligations of C20 no longer check: " + log[-1500:], {"log": log[-4000:]}, found_input=False)
     h = hharness()
-    model = os.environ.get("VERIF_HIST_RUNNER") or vlib.build_model()   # (env: development aid, a private runner)
+    import c10
+    model = c10.hist_runner()
     ncases = 60 if chk.tier == "quick" else 600
     cases = []
     for i in range(ncases):
